@@ -231,3 +231,33 @@ def iter_builtin(ctx, x):
     if hasattr(x, 'sym_iter'):
         return x.sym_iter(ctx)
     return ops.py_iter(ctx, x)
+
+
+# ------------------------------------------- floor division in characteristic form (L-DIVMOD) --
+
+def divmod_char(ctx, a, b):
+    """Python divmod(a, b) of integers for b != 0 (nothing is said when b == 0), as fresh (q, r) with the
+    characteristic property  a == b*q + r  and  0 <= r < b  (b > 0)  /  b < r <= 0  (b < 0).
+    The pair is unique (L-DIVMOD, DESIGN 2.6), so this is exact; the product form is what nonlinear solvers handle
+    well, unlike nested div/mod terms.  One pair per distinct (a, b) term pair and path."""
+    a, b = z3.simplify(zint(a)), z3.simplify(zint(b))
+    if z3.is_int_value(a) and z3.is_int_value(b):
+        q, r = divmod(a.as_long(), b.as_long())
+        return z3.IntVal(q), z3.IntVal(r)
+    cache = ctx.ghost.setdefault('divmod_char', {})
+    key = (a.get_id(), b.get_id())
+    if key not in cache:
+        q, r = ctx.int('quot', report=False), ctx.int('rem', report=False)
+        ctx.assume(z3.Implies(b != 0, z3.And(a == b * q + r, z3.If(b > 0, z3.And(0 <= r, r < b), z3.And(b < r, r <= 0)))),
+                   axiom='L-DIVMOD: (q, r) = divmod(a, b) is the unique pair with a == b*q + r and r between 0 (incl.) and b (excl.)')
+        cache[key] = (q, r, a, b)  # keep the terms alive (ids are only unique among live terms)
+    return cache[key][0], cache[key][1]
+
+
+def divmod_builtin(ctx, a, b):
+    if is_intlike(a) and is_intlike(b) and (isinstance(a, Sym) or isinstance(b, Sym)):
+        if not ctx.branch(zint(b) != 0):
+            raise PyRaise('ZeroDivisionError')
+        q, r = divmod_char(ctx, a, b)
+        return (SInt(q), SInt(r))
+    return ops.py_divmod(ctx, a, b)
